@@ -682,6 +682,23 @@ func (it *Interp) compute(fr *frame, v ssa.Value) AV {
 							break
 						}
 					}
+					// a local struct assembled field by field and read as a whole
+					if _, isStruct := x.Type().Underlying().(*types.Struct); isStruct {
+						var ks []string
+						for k := range it.mem {
+							if strings.HasPrefix(k, a.Key+".") && !strings.Contains(k[len(a.Key)+1:], ".") {
+								ks = append(ks, k)
+							}
+						}
+						if len(ks) > 0 {
+							sort.Strings(ks)
+							var fs []string
+							for _, k := range ks {
+								fs = append(fs, k[len(a.Key)+1:]+":"+it.mem[k].String())
+							}
+							return Sym("struct{" + strings.Join(fs, ",") + "}")
+						}
+					}
 					// never stored: zero value
 					return zeroAV(x.Type())
 				}
